@@ -81,14 +81,17 @@ impl<S: Clone> Updatable<E> for RecSettable<S> {
         self.update_following_data()
     }
 }
+/// An encoder-like getter: what `get()` returns only changes when `update()` runs (it latches the pending reading), so a
+/// wrapper that reads before it updates relays the previous round's value.
 struct EncoderDouble {
     cur: Rc<RefCell<Output<State, E>>>,
+    latched: RefCell<Output<State, E>>,
     upd_err: Rc<Cell<bool>>,
     updates: Rc<Cell<u32>>,
 }
 impl Getter<State, E> for EncoderDouble {
     fn get(&self) -> Output<State, E> {
-        self.cur.borrow().clone()
+        self.latched.borrow().clone()
     }
 }
 impl Updatable<E> for EncoderDouble {
@@ -97,6 +100,7 @@ impl Updatable<E> for EncoderDouble {
         if self.upd_err.get() {
             Err(Error::Other(8))
         } else {
+            *self.latched.borrow_mut() = self.cur.borrow().clone();
             Ok(())
         }
     }
@@ -184,7 +188,7 @@ pub fn check(s: &Scenario) -> CheckResult {
         Which::Encoder => {
             let cur = Rc::new(RefCell::new(Ok(None)));
             let (upd_err, updates) = (Rc::new(Cell::new(false)), Rc::new(Cell::new(0)));
-            let inner = EncoderDouble { cur: cur.clone(), upd_err: upd_err.clone(), updates: updates.clone() };
+            let inner = EncoderDouble { cur: cur.clone(), latched: RefCell::new(Ok(None)), upd_err: upd_err.clone(), updates: updates.clone() };
             let w: &'static mut GetterStateDeviceWrapper<'static, EncoderDouble, E> = arena.alloc(GetterStateDeviceWrapper::new(inner));
             let term = w.get_terminal();
             if let Some(e) = ext {
